@@ -32,7 +32,7 @@ def strip_generics(s):
     if '::<' not in s: return s
     out = []; i = 0; n = len(s)
     while i < n:
-        if s.startswith('::<', i) and (not s.startswith('::<impl ', i) or _prev_seg_is_type(s, i)):
+        if s.startswith('::<', i) and (not s.startswith('::<impl ', i) or _prev_seg_is_type(s, i) or _closes_at_end(s, i)):
             depth = 1; i += 3
             while depth and i < n:
                 ch = s[i]
@@ -42,6 +42,17 @@ def strip_generics(s):
             continue
         out.append(s[i]); i += 1
     return ''.join(out)
+
+
+def _closes_at_end(s, i):
+    depth = 0; j = i + 2
+    while j < len(s):
+        if s[j] == '<': depth += 1
+        elif s[j] == '>' and s[j-1] not in '-=':
+            depth -= 1
+            if depth == 0: return j == len(s) - 1
+        j += 1
+    return False
 
 
 def _prev_seg_is_type(s, i):
@@ -307,6 +318,7 @@ class Engine:
         self.res_cache = {}
         self.fuel_limit = 100000
         self.hooks = {}           # callee-name -> python callable (harness interceptions)
+        self.hook_patterns = []   # (compiled regex, model function): harness-level dispatch that takes precedence over local bodies
         self.trace = False
         self.nsym = 0
         self.decisions = []; self.prefix = []; self.new_alternatives = []
@@ -1053,12 +1065,27 @@ class Engine:
         if c.startswith(('str::<impl str>::', 'alloc::str::<impl str>::')): c = 'core::str::<impl str>::' + c.split('<impl str>::', 1)[1]
         elif c.startswith(('slice::<impl ', 'alloc::slice::<impl ')): c = 'core::slice::<impl ' + c.split('slice::<impl ', 1)[1]
         if not nohook and c in self.hooks: return ('hook', None, c)
+        for pat, h in self.hook_patterns:
+            if pat.match(c): return ('model', h, c)
         mdl = self.models.get(c)
         if mdl is not None: return ('model', mdl, c)
         f = self.resolve_local(callee, crate)
         if f is not None: return ('fn', f, c)
         for pat, m in MODEL_PATTERNS:
             if pat.match(c): return ('model', m, c)
+        # constructors used as function values: Enum::Variant(..) / TupleStruct(..)
+        segs = c.split('::')
+        if len(segs) >= 2 and segs[-1][:1].isupper():
+            ek = self.enum_key('::'.join(segs[:-1]), crate)
+            if ek is not None and self.has_variant(ek, segs[-1]):
+                v = segs[-1]
+                return ('model', (lambda e, c_, a, raw, ek=ek, v=v: EnumV(ek, v, list(a))), c)
+        if segs[-1][:1].isupper() and re.fullmatch(r'(?:\w+::)*\w+', c):
+            name = segs[-1]
+            if name in ('Some', 'Ok', 'Err'):
+                ty = 'Option' if name == 'Some' else 'Result'
+                return ('model', (lambda e, c_, a, raw, ty=ty, name=name: EnumV(ty, name, list(a))), c)
+            return ('model', (lambda e, c_, a, raw, name=name: Agg(name, list(a))), c)
         return ('none', None, c)
 
     def prewarm(self, crates):
